@@ -360,6 +360,20 @@ def generated_inputs(ctx, rng, stats):
                 got += 1
                 if n >= per_problem or got >= quota[src]:
                     break
+    # fluent-dependent durations: EVERY constant / non-constant combination of the bounds x changed bound x before/after
+    # in every run (quick: one openness per combination, rotating; thorough: all four)
+    from harness.gen.c26_gen import shape_dyn_duration, DYN_COMBOS, DYN_OPEN
+    for ci, combo in enumerate(DYN_COMBOS):
+        for oi, op in enumerate(DYN_OPEN):
+            if ctx.quick and oi != (ci + ctx.seed) % len(DYN_OPEN):
+                continue
+            sh = shape_dyn_duration(rng, combo, op)
+            steps = fresh(sh.steps)
+            valid, raised, _ = tt_validate(sh.problem, steps)
+            if not valid:
+                stats["skipped"]["shape-not-valid:dyn-%s-%s-%s" % combo] += 1
+                continue
+            yield "dyn:%s-%s-%s" % combo, sh.problem, steps, None
     got = 0
     tries = 0
     while got < quota["shape"] and tries < quota["shape"] * 5:
